@@ -54,6 +54,7 @@ type expander struct {
 	vars  []tvar
 	// UninterpretedFuncs are template functions modelled as opaque token maps.
 	visited map[parse.Node]bool
+	tdepth  int
 }
 
 type tvar struct {
@@ -229,7 +230,31 @@ func (ex *expander) walk(dot interp.Value, n parse.Node) error {
 			ex.vars = ex.vars[:inner]
 		}
 		return nil
-	case *parse.BreakNode, *parse.ContinueNode, *parse.TemplateNode:
+	case *parse.TemplateNode:
+		t := ex.src.Trees[n.Name]
+		if t == nil || t.Root == nil {
+			return ex.undecided(n, "template %q is not defined", n.Name)
+		}
+		ex.tdepth++
+		defer func() { ex.tdepth-- }()
+		if ex.tdepth > 20 {
+			return ex.undecided(n, "template recursion")
+		}
+		var newDot interp.Value = interp.NilV{}
+		if n.Pipe != nil {
+			v, err := ex.pipelineNoDecl(dot, n.Pipe)
+			if err != nil {
+				return err
+			}
+			newDot = v
+		}
+		// a template invocation starts with a fresh variable scope holding only $
+		saved := ex.vars
+		ex.vars = []tvar{{"$", newDot}}
+		err := ex.walk(newDot, t.Root)
+		ex.vars = saved
+		return err
+	case *parse.BreakNode, *parse.ContinueNode:
 		return ex.undecided(n, "template construct %s is outside the analysed vocabulary", n.Type())
 	}
 	return ex.undecided(n, "template node %T is outside the analysed vocabulary", n)
